@@ -65,6 +65,15 @@ pub trait Lay: Copy + 'static {
         vec![]
     }
     fn compose_forms(&self, o: &Self) -> Forms<Self>;
+    /// the same entries with arbitrary content in the padding lanes of 16-byte columns (Mat3A, Affine3A); None for packed types
+    fn repad(&self, _junk: &[u64]) -> Option<Self> {
+        None
+    }
+}
+
+/// Mat3A / Affine3A columns rebuilt through `Vec3A::from_vec4` so that the padding lane differs from z
+fn repad_v3a(v: Vec3A, junk: u64) -> Vec3A {
+    Vec3A::from_vec4(Vec4::new(v.x, v.y, v.z, f32::from_bits(junk as u32)))
 }
 
 macro_rules! lay_mat {
@@ -164,8 +173,29 @@ macro_rules! lay_mat {
                 x *= *o;
                 vec![("A*B", *self * *o), ("A*=B", x)]
             }
+            fn repad(&self, junk: &[u64]) -> Option<Self> {
+                <$M as Repad>::repad_impl(self, junk)
+            }
         }
     };
+}
+
+/// per-type padding rebuild (only the SIMD-padded types return Some)
+trait Repad: Sized {
+    fn repad_impl(&self, _junk: &[u64]) -> Option<Self> {
+        None
+    }
+}
+impl Repad for Mat2 {}
+impl Repad for Mat3 {}
+impl Repad for Mat4 {}
+impl Repad for DMat2 {}
+impl Repad for DMat3 {}
+impl Repad for DMat4 {}
+impl Repad for Mat3A {
+    fn repad_impl(&self, junk: &[u64]) -> Option<Self> {
+        Some(Mat3A::from_cols(repad_v3a(self.x_axis, junk[0]), repad_v3a(self.y_axis, junk[1]), repad_v3a(self.z_axis, junk[2])))
+    }
 }
 
 /// from_diagonal takes Vec3 for Mat3A (not Vec3A): the diagonal vector type per matrix type
@@ -317,8 +347,22 @@ macro_rules! lay_affine {
                 let l = [*self, *o];
                 vec![("A*B", *self * *o), ("A*=B", x), ("Product by ref", l.iter().product())]
             }
+            fn repad(&self, junk: &[u64]) -> Option<Self> {
+                <$A as Repad>::repad_impl(self, junk)
+            }
         }
     };
+}
+impl Repad for Affine2 {}
+impl Repad for DAffine2 {}
+impl Repad for DAffine3 {}
+impl Repad for Affine3A {
+    fn repad_impl(&self, junk: &[u64]) -> Option<Self> {
+        Some(Affine3A {
+            matrix3: Mat3A::from_cols(repad_v3a(self.matrix3.x_axis, junk[0]), repad_v3a(self.matrix3.y_axis, junk[1]), repad_v3a(self.matrix3.z_axis, junk[2])),
+            translation: repad_v3a(self.translation, junk[0] ^ junk[2]),
+        })
+    }
 }
 lay_affine!(Affine2, f32, 2, Vec2, matrix2, [0 x_axis, 1 y_axis, 2 z_axis],
     point = |a, p, o| { o.push(("transform_point2", a.transform_point2(Vec2::from_slice(p)).to_array().to_vec())); },
@@ -458,6 +502,51 @@ fn check_access<L: Lay>(w: &[u64], t: &mut Tally) -> Result<(), Fail> {
     if let Some(mt) = m.transp() {
         let exp: Vec<u64> = (0..ne).map(|i| a[(i % r_) * r_ + i / r_]).collect();
         same_bits::<L>("transpose", "", &mt.to_arr(), &exp, &ctx)?;
+    }
+    // the same value with junk in the padding lanes of its columns presents the same entries through every accessor
+    if let Some(mp) = m.repad(garbage) {
+        t.class("padded-columns");
+        same_bits::<L>("to_cols_array", "padding lanes filled", &mp.to_arr(), a, &ctx)?;
+        same_bits::<L>("to_cols_array_2d", "padding lanes filled", &mp.to_2d(), a, &ctx)?;
+        same_bits::<L>("axis fields", "padding lanes filled", &mp.axes(), a, &ctx)?;
+        if let Some(mt) = mp.transp() {
+            let exp: Vec<u64> = (0..ne).map(|i| a[(i % r_) * r_ + i / r_]).collect();
+            same_bits::<L>("transpose", "padding lanes filled", &mt.to_arr(), &exp, &ctx)?;
+            if let Some(mtt) = mt.transp() {
+                same_bits::<L>("transpose", "twice, padding lanes filled", &mtt.to_arr(), a, &ctx)?;
+            }
+        }
+        for c in 0..c_ {
+            if let Some(col) = mp.g_col(c) {
+                same_bits::<L>("col", "padding lanes filled", &col, &a[c * r_..(c + 1) * r_], &ctx)?;
+            }
+        }
+        for r in 0..r_ {
+            if let Some(row) = mp.g_row(r) {
+                let exp: Vec<u64> = (0..c_).map(|c| a[c * r_ + r]).collect();
+                same_bits::<L>("row", "padding lanes filled", &row, &exp, &ctx)?;
+            }
+        }
+        let mut buf: Vec<L::T> = dec::<L::T>(garbage).iter().cycle().take(ne + 2).copied().collect();
+        mp.write_slice(&mut buf);
+        same_bits::<L>("write_cols_to_slice", "padding lanes filled", &buf[..ne], a, &ctx)?;
+        for (name, i, j, got) in mp.minors() {
+            let mut exp = vec![];
+            for c in 0..c_ {
+                if c == i {
+                    continue;
+                }
+                for r in 0..r_ {
+                    if r == j {
+                        continue;
+                    }
+                    exp.push(a[c * r_ + r]);
+                }
+            }
+            if bits(&got) != exp {
+                return Err(fail::<L>("minor", name, format!("({i},{j}) with padding lanes filled: got {} expected {}; {}", hx(&bits(&got)), hx(&exp), ctx())));
+            }
+        }
     }
     // minors drop exactly column i and row j
     for (name, i, j, got) in m.minors() {
